@@ -121,6 +121,11 @@ func c01(r *core.Report) {
 	r.Rule("C01-FRAG-ID", "a fragmented message's id is read and advanced in one critical section (or by one atomic add)", 2)
 	ruleFragIDAtomic(r, "C01-FRAG-ID")
 
+	// ---- C01-REASSEMBLY-COMPLETE (shared with C10-COMPLETE): "never a truncation ... of other messages":
+	// a reassembled message is handed up only after the completion test, and the test covers every part
+	r.Rule("C01-REASSEMBLY-COMPLETE", "assembly/delivery only after the completion test; the test covers every part", 5)
+	ruleComplete(r, "C01-REASSEMBLY-COMPLETE")
+
 	// ---- C01-ADDRESSEE (shared with C04-P2PKE): "to whom it was told": on the identity-addressed
 	// layer a Tell to X@addr goes out only on a channel whose authenticated key fingerprints to X
 	r.Rule("C01-ADDRESSEE", "p2pkeswarm sends a Tell only on a channel whose authenticated identity equals the destination's", 2)
